@@ -5,6 +5,16 @@ Arguments upd : simpl never.
 
 Definition device_grant : string := "urn:ietf:params:oauth:grant-type:device_code".
 
+Lemma grant_tokens_dev_used s stored w : dev_used (st (fst (grant_tokens s stored w))) = dev_used (st s).
+Proof.
+  unfold grant_tokens.
+  destruct (mint s KAccess (r_id stored)) as [ka s2] eqn:E2. destruct (mint_spec _ _ _ _ _ E2) as [_ [_ [H2 _]]].
+  destruct w.
+  - destruct (mint s2 KRefresh (r_id stored)) as [kr s3] eqn:E3. destruct (mint_spec _ _ _ _ _ E3) as [_ [_ [H3 _]]].
+    cbn. congruence.
+  - cbn. congruence.
+Qed.
+
 (* a successful poll: the user code was accepted (state neither "unused" nor "rejected"), the poller started the
    flow, the code is unexpired and genuine; the tokens carry the decision's scopes; the device code is consumed *)
 Theorem poll_ok_facts cfg s auth dev :
@@ -17,12 +27,14 @@ Theorem poll_ok_facts cfg s auth dev :
     o_scopes (snd res) = r_gscopes r /\
     device (st (fst res)) k = None /\
     (exists ka, access (st (fst res)) ka = Some (minted_record cfg s r cl)) /\
-    (In KRefresh (o_minted (snd res)) -> can_refresh cfg (r_gscopes r) cl = true).
+    (In KRefresh (o_minted (snd res)) -> can_refresh cfg (r_gscopes r) cl = true) /\
+    used_device cfg (st s) k = None /\ dev_used (st (fst res)) k = Some (r_id r).
 Proof.
   unfold device_poll.
   destruct auth as [c|]; [|discriminate]. destruct (clients s c) as [cl|] eqn:Ecl; [|discriminate].
   destruct (negb (args_has (cl_grants cl) _)) eqn:Eg; [discriminate|].
   destruct (key_of s dev) as [k|]; [|discriminate].
+  destruct (used_device cfg (st s) k) as [rid0|] eqn:Eu; [discriminate|].
   destruct (device (st s) k) as [[stt r]|] eqn:Ed; [|discriminate].
   destruct (Nat.eqb_spec stt 0); [discriminate|].
   destruct (Nat.eqb_spec stt 2); [discriminate|].
@@ -31,6 +43,7 @@ Proof.
   destruct (Nat.eqb_spec (r_client r) c) as [Hc|Hc]; cbn [negb]; [|discriminate].
   match goal with |- context [grant_tokens ?s2 ?stored ?w] =>
     pose proof (grant_tokens_records s2 stored w) as G; pose proof (grant_tokens_device s2 stored w) as GD;
+    pose proof (grant_tokens_dev_used s2 stored w) as GU;
     destruct (grant_tokens s2 stored w) as [s3 minted] end.
   cbn [fst snd] in *. destruct G as [ka [Ha [_ [_ [_ Hm]]]]]. intros _.
   exists k, stt, r, cl. rewrite Hc.
@@ -38,6 +51,7 @@ Proof.
   split; [reflexivity|]. split; [assumption|]. split; [now apply negb_false_iff in Eg|]. split; [assumption|].
   split; [reflexivity|]. split; [rewrite GD; cbn; apply upd_eq|].
   split; [exists ka; unfold minted_record; rewrite ?Hc; exact Ha|].
+  split; [|split; [first [exact Eu|reflexivity]|rewrite GU; cbn; apply upd_eq]].
   intros Hin. rewrite Hm in Hin. destruct (can_refresh cfg (r_gscopes r) cl); [reflexivity|].
   cbn in Hin. destruct Hin as [H|[]]. discriminate.
 Qed.
@@ -46,19 +60,20 @@ Qed.
 Section Verdicts.
   Variables (cfg : config) (s : state) (c : nat) (cl : client) (dev : pres) (k stt : nat) (r : req).
   Hypotheses (Hc : clients s c = Some cl) (Hg : args_has (cl_grants cl) [device_grant] = true)
-             (Hk : key_of s dev = Some k) (Hd : device (st s) k = Some (stt, r)).
+             (Hk : key_of s dev = Some k) (Hd : device (st s) k = Some (stt, r))
+             (Hu : used_device cfg (st s) k = None).
 
   Theorem poll_pending : stt = 0 -> device_poll cfg s (Some c) dev = (s, err_obs "authorization_pending").
-  Proof. intros ->. unfold device_poll. unfold device_grant in Hg. rewrite Hc, Hg, Hk, Hd. reflexivity. Qed.
+  Proof. intros ->. unfold device_poll. unfold device_grant in Hg. rewrite Hc, Hg, Hk, Hu, Hd. reflexivity. Qed.
 
   Theorem poll_denied : stt = 2 -> device_poll cfg s (Some c) dev = (s, err_obs "access_denied").
-  Proof. intros ->. unfold device_poll. unfold device_grant in Hg. rewrite Hc, Hg, Hk, Hd. reflexivity. Qed.
+  Proof. intros ->. unfold device_poll. unfold device_grant in Hg. rewrite Hc, Hg, Hk, Hu, Hd. reflexivity. Qed.
 
   Theorem poll_expired :
     stt <> 0 -> stt <> 2 -> expired (s_exp_dev (r_sess r)) (r_at r) (cf_life_dev cfg) (now s) = true ->
     device_poll cfg s (Some c) dev = (s, err_obs "expired_token").
   Proof.
-    intros H0 H2 He. unfold device_poll. unfold device_grant in Hg. rewrite Hc, Hg, Hk, Hd. cbn [negb].
+    intros H0 H2 He. unfold device_poll. unfold device_grant in Hg. rewrite Hc, Hg, Hk, Hu, Hd. cbn [negb].
     destruct (Nat.eqb_spec stt 0); [contradiction|]. destruct (Nat.eqb_spec stt 2); [contradiction|]. now rewrite He.
   Qed.
 
@@ -67,26 +82,45 @@ Section Verdicts.
     p_tampered dev = false -> r_client r <> c ->
     device_poll cfg s (Some c) dev = (s, err_obs "invalid_grant").
   Proof.
-    intros H0 H2 He Ht Hne. unfold device_poll. unfold device_grant in Hg. rewrite Hc, Hg, Hk, Hd. cbn [negb].
+    intros H0 H2 He Ht Hne. unfold device_poll. unfold device_grant in Hg. rewrite Hc, Hg, Hk, Hu, Hd. cbn [negb].
     destruct (Nat.eqb_spec stt 0); [contradiction|]. destruct (Nat.eqb_spec stt 2); [contradiction|]. rewrite He, Ht.
     destruct (Nat.eqb_spec (r_client r) c); [contradiction|reflexivity].
   Qed.
 End Verdicts.
 
 (* whatever the combination of conditions, a refused poll yields no tokens and leaves every code, token and device
-   record as it was *)
+   record as it was - except the replay of an already redeemed code at a contract-following device table, which
+   revokes the tokens of the code's request and changes nothing else *)
+Definition replay_revocation (s : state) (rid : nat) : state :=
+  set_store s (fst (revoke_refresh (revoke_access (st s) rid) rid)).
 Theorem poll_refused_changes_nothing cfg s auth dev :
+  o_err (snd (device_poll cfg s auth dev)) <> "" ->
+  o_minted (snd (device_poll cfg s auth dev)) = [] /\
+  (fst (device_poll cfg s auth dev) = s \/
+   exists k rid, key_of s dev = Some k /\ used_device cfg (st s) k = Some rid /\
+                 fst (device_poll cfg s auth dev) = replay_revocation s rid).
+Proof.
+  unfold device_poll.
+  assert (same : forall e, o_err (snd (fail s e)) <> "" -> o_minted (snd (fail s e)) = [] /\
+     (fst (fail s e) = s \/ exists k rid, key_of s dev = Some k /\ used_device cfg (st s) k = Some rid /\
+                                          fst (fail s e) = replay_revocation s rid))
+    by (intros e _; split; [reflexivity|left; reflexivity]).
+  destruct auth as [c|]; [|apply same]. destruct (clients s c) as [cl|]; [|apply same].
+  destruct (negb (args_has (cl_grants cl) _)); [apply same|].
+  destruct (key_of s dev) as [k|]; [|apply same].
+  destruct (used_device cfg (st s) k) as [rid|] eqn:Eu; [intros _; split; [reflexivity|right; exists k, rid; auto]|].
+  destruct (device (st s) k) as [[stt r]|]; [|apply same].
+  repeat match goal with |- context [if ?c then fail s _ else _] => destruct c; [apply same|] end.
+  match goal with |- context [grant_tokens ?s2 ?stored ?w] => destruct (grant_tokens s2 stored w) as [s3 minted] end.
+  cbn. congruence.
+Qed.
+Theorem poll_refused_changes_nothing_reference cfg s auth dev :
+  cf_dev_contract cfg = false ->
   o_err (snd (device_poll cfg s auth dev)) <> "" ->
   fst (device_poll cfg s auth dev) = s /\ o_minted (snd (device_poll cfg s auth dev)) = [].
 Proof.
-  unfold device_poll.
-  destruct auth as [c|]; [|auto]. destruct (clients s c) as [cl|]; [|auto].
-  destruct (negb (args_has (cl_grants cl) _)); [auto|].
-  destruct (key_of s dev) as [k|]; [|auto].
-  destruct (device (st s) k) as [[stt r]|]; [|auto].
-  repeat match goal with |- context [if ?c then fail s _ else _] => destruct c; [auto|] end.
-  match goal with |- context [grant_tokens ?s2 ?stored ?w] => destruct (grant_tokens s2 stored w) as [s3 minted] end.
-  cbn. congruence.
+  intros Hc H. destruct (poll_refused_changes_nothing cfg s auth dev H) as [Hm [Hs|[k [rid [_ [Hu _]]]]]]; [auto|].
+  unfold used_device in Hu. rewrite Hc in Hu. discriminate.
 Qed.
 
 (* a consumed device code stays consumed: device records are only created under fresh keys *)
@@ -126,7 +160,7 @@ Proof.
   destruct (negb (args_has (cl_grants cl') _)) eqn:Eg.
   - cbn [snd fail err_obs o_err o_minted]. repeat split; try reflexivity; try easy.
     intros c0 cl0 [= <-] Hcl Hg. rewrite Ecl in Hcl. injection Hcl as <-. unfold device_grant in Hg. rewrite Hg in Eg. discriminate.
-  - rewrite Hkey, Hg2. cbn. repeat split; try reflexivity; easy.
+  - rewrite Hkey. destruct (used_device cfg (st s2) k); [|rewrite Hg2]; cbn; repeat split; try reflexivity; easy.
 Qed.
 
 (* the device-authorization endpoint: client authentication, grant type, confinement to the registration *)
